@@ -1,8 +1,1333 @@
-//! C10 — not built yet.
+//! C10 — RNS base tools meet their integer specifications for all inputs.
+//!
+//! E1 sections (every verdict is an exhaustive loop over a stated finite set, compared with BigU/BigI):
+//!  * `rnsbase`    RNSBase: constructor constants, decompose/compose (single + array forms, lengths 1..5)
+//!                 for every ordered sub-base of the modulus alphabet; ALL integers below the product (and
+//!                 all residue vectors) when the product is small, the boundary set otherwise
+//!  * `tool_tiny`  RNSTool::new(N=2, q, t) for tiny odd bases x plain moduli x routine: ALL integers in
+//!                 [0, Q) (= all residue vectors of the q-base), crossed with the routine's own boundary
+//!                 dimension (overshoot alpha, quotient h, ...)
+//!  * `tool_real`  the same routines on 20..60-bit bases (1..6 primes, ascending/descending/mixed) over the
+//!                 boundary integer set
+//!  * `tool_ctx`   the contexts' own instances (every level, through hook H5 `verif_rns_tool`) with the
+//!                 level's NTT tables
+//!
+//! Integer specifications, re-derived from /repo/src/util/rns.rs (k = |q-base|, Q = prod q, B = prod base_B,
+//! Bsk = B u {m_sk}, mt = m_tilde = 2^32, g = gamma). FastBconv(x, q -> p) of BEHZ computes
+//! S = sum_i |x_i (Q/q_i)^-1|_{q_i} (Q/q_i) mod p, and S = |x|_Q + a Q with a = floor(sum_i temp_i/q_i) in [0, k-1].
+//!
+//!  fastbconv_m_tilde(x)   one a in [0,k-1] with out_p = (|mt x|_Q + a Q) mod p for EVERY p in Bsk u {mt}
+//!                         (both converters start from the same temp_i, hence the same a).
+//!  sm_mrq(c'')            r = |-c'' Q^-1|_mt centred in [-mt/2, mt/2) ('>=' test on a power of two), output
+//!                         y = (c'' + Q r)/mt exactly. For c'' = |mt x|_Q + a Q (a <= k-1): y = x (mod Q) and
+//!                         -Q/2 <= y < Q/2 + (k-1) Q/mt. The check composes the Bsk residues (centred CRT) and
+//!                         demands congruence and window.
+//!  fast_floor(a)          out_p = (a_p - FastBconv(a_q)) Q^-1 = (a - |a|_Q - a' Q)/Q = floor(a/Q) - a' mod p,
+//!                         a' in [0,k-1], same for every p in Bsk; holds for negative a as well (a - |a|_Q is
+//!                         a multiple of Q and equals Q floor(a/Q)).
+//!  fastbconv_sk(X)        FastBconv(X_B -> q) = |X|_B + aB B; alpha_sk = (aB - e) mod m_sk with e = floor(X/B);
+//!                         the code reads alpha_sk > floor(m_sk/2) as negative, so the output is X mod q_i
+//!                         EXACTLY iff |aB - e| <= floor(m_sk/2); guaranteed for
+//!                         kB - 1 - floor(m_sk/2) <= e <= floor(m_sk/2) ("ext" domain; "core" = |X| < B/2).
+//!  steps 6-8              fast_floor(t a) then fastbconv_sk: (floor(t a/Q) - a') mod q_i, a' in [0,k-1], for
+//!                         |a| <= 2^30 Q^2 (needs the sizing invariant 2^32 t Q < B m_sk of RNSTool::new).
+//!  divide_and_round       c_last' = (x + h) mod q_last with h = floor(q_last/2); out_i = (x + h - c_last')/q_last
+//!                         = floor((x + h)/q_last) mod q_i = round(x/q_last), ties up. NTT variant identical.
+//!  mod_t_and_divide       d = |-c_last q_last^-1|_t in [0,t) (NOT centred), out = (x - c_last - d q_last)/q_last
+//!                         = floor(x/q_last) - d =: y; y q_last = x (mod t) and y in [F - t + 1, F] — this
+//!                         determines y uniquely (the design text's (t+1)/2 window was wrong: d is one-sided).
+//!  decrypt_scale_and_round  t g x = Q v + r; conversions give v - a mod t and mod g; writing t x = Q M + eps with
+//!                         eps centred, v - a = g M + (floor(g eps/Q) - a); the g-residue is read centred, which
+//!                         is right iff floor(g eps/Q) - a >= -(g-1)/2; so out = round(t x/Q) mod t whenever
+//!                         frac(t x/Q) < 1/2 or frac >= 1/2 + k/g; inside the band [1/2, 1/2 + k/g) either
+//!                         neighbour is accepted.
+//!  decrypt_mod_t          exact_convey: sum temp_i/q_i = x/Q + a in f64 (error < 2^-46 for k <= 8), rounded;
+//!                         out = centred |x|_Q mod t whenever |x/Q - 1/2| > 2^-41, either candidate inside.
+
 use crate::engine::*;
+use crate::he::{self, ParamSpec, Scheme};
+use crate::refmodel::bigu::*;
+use heathcliff::util::{NTTTables, RNSBase, RNSTool};
+use heathcliff::Modulus;
+use serde::{Deserialize, Serialize};
+use std::time::Duration;
 
-pub fn describe(_rep: &Report) {}
+pub fn describe(rep: &Report) {
+    rep.set_rule(
+        "case = (base) resp. (N, q-base, t, routine, slice of the integer list); each case loops over ALL integers of its list \
+         (all of [0,Q) for tiny bases = all residue vectors; the boundary set otherwise) x the routine's own boundary dimension. \
+         traces_validated_against_impl counts individual coefficients compared with the big-integer specification. \
+         non-trivial = more than one behaviour class seen in the case (overshoot alpha > 0, negative operand, upward rounding, \
+         correction branch, ...).",
+    );
+    rep.assume("self-tested schoolbook BigU/BigI, crt() and inv_mod_u64 of refmodel::bigu are the reference");
+    rep.assume("inputs are reduced residues (< modulus); unreduced inputs are outside the stated domain");
+    rep.assume("q-bases of RNSTool are odd (Q invertible modulo m_tilde = 2^32) and coprime to t; other bases must be refused and are counted as skipped");
+    rep.assume("bases with product >= 2^18 (thorough: 1.3*2^20) are covered on the boundary integer set only: 0,1,Q-1,Q/2 neighbourhood, q_i, Q-q_i, punctured products +-1, rounding boundaries of q_last and of t x/Q, fixed generic fill values");
+    rep.assume("decrypt_scale_and_round is judged exactly outside the band frac(t x/Q) in [1/2, 1/2 + k/gamma) and decrypt_mod_t outside |x/Q - 1/2| <= 2^-41; inside, either neighbour is accepted");
+    rep.assume("mod_t_and_divide_q_last: this code's (SEAL's) one-sided convention y in [floor(x/q_last) - t + 1, floor(x/q_last)] is demanded");
+    rep.assume("BaseConverter is crate-private: fast_convert_array / exact_convey_array are observed through the RNSTool routines only; the non-array fast_convert is not reachable");
+}
 
-pub fn sections(_cfg: &RunCfg) -> Vec<Box<dyn AnySection>> {
-    vec![]
+// ------------------------------------------------------------------------------------------
+// small helpers
+// ------------------------------------------------------------------------------------------
+
+struct Bad {
+    what: String,
+    exp: String,
+    obs: String,
+}
+
+fn bad(what: &str, exp: String, obs: String) -> Bad {
+    Bad { what: what.to_string(), exp, obs }
+}
+
+fn call<T>(what: &str, f: impl FnOnce() -> T) -> Result<T, Bad> {
+    guard(f).map_err(|p| Bad { what: format!("{what}:panic:{}", panic_class(&p)), exp: "no panic for an operand in range".into(), obs: p })
+}
+
+#[derive(Default)]
+struct Acc {
+    steps: u64,
+    mask: u64,
+}
+
+fn bi(u: &BigU) -> BigI {
+    BigI::from_u(u.clone())
+}
+fn bi64(v: u64) -> BigI {
+    BigI::from_u(BigU::from_u64(v))
+}
+fn show(x: &BigI) -> String {
+    format!("{}{}", if x.neg { "-" } else { "" }, x.mag.to_hex())
+}
+fn res_i(x: &BigI, mods: &[u64]) -> Vec<u64> {
+    mods.iter().map(|&m| x.rem_u64(m)).collect()
+}
+fn res_u(x: &BigU, mods: &[u64]) -> Vec<u64> {
+    mods.iter().map(|&m| x.rem_u64(m)).collect()
+}
+/// component-major layout: out[i*n + j] = vals[j][i]; missing coefficients are zero
+fn pack(vals: &[Vec<u64>], n: usize, nmod: usize) -> Vec<u64> {
+    let mut out = vec![0u64; n * nmod];
+    for (j, v) in vals.iter().enumerate() {
+        for i in 0..nmod {
+            out[i * n + j] = v[i];
+        }
+    }
+    out
+}
+fn column(buf: &[u64], n: usize, nmod: usize, j: usize) -> Vec<u64> {
+    (0..nmod).map(|i| buf[i * n + j]).collect()
+}
+fn gcd(mut a: u64, mut b: u64) -> u64 {
+    while b != 0 {
+        (a, b) = (b, a % b);
+    }
+    a
+}
+fn pairwise_coprime(v: &[u64]) -> bool {
+    for i in 0..v.len() {
+        for j in 0..i {
+            if gcd(v[i], v[j]) != 1 {
+                return false;
+            }
+        }
+    }
+    true
+}
+fn mods(v: &[u64]) -> Vec<Modulus> {
+    v.iter().map(|&x| Modulus::new(x)).collect()
+}
+
+/// boundary integers of [0, Q)
+fn boundary_xs(qs: &[u64], t: u64, seed: u64) -> Vec<BigU> {
+    let q = BigU::product(qs);
+    let qi = bi(&q);
+    let mut c: Vec<BigI> = vec![];
+    let around = |c: &mut Vec<BigI>, x: BigI, r: i128| {
+        for d in -r..=r {
+            c.push(x.add(&BigI::from_i128(d)));
+        }
+    };
+    around(&mut c, bi64(0), 2);
+    around(&mut c, qi.clone(), 2);
+    around(&mut c, bi(&q.shr(1)), 2);
+    for &p in qs {
+        around(&mut c, bi64(p), 1);
+        around(&mut c, qi.sub(&bi64(p)), 1);
+        let punct = q.div(&BigU::from_u64(p));
+        around(&mut c, bi(&punct), 1);
+        around(&mut c, qi.sub(&bi(&punct)), 1);
+    }
+    // rounding boundaries of the division by the last modulus
+    let ql = *qs.last().unwrap();
+    let qrest = q.div(&BigU::from_u64(ql));
+    for m in [BigU::zero(), BigU::one(), BigU::from_u64(2), qrest.shr(1), qrest.sub(&BigU::one())] {
+        around(&mut c, bi(&m.mul_u64(ql).add(&BigU::from_u64(ql >> 1))), 1);
+    }
+    if t > 0 {
+        // rounding boundaries of t*x/Q and exact multiples
+        for j in [0u64, 1, t / 2, t - 1] {
+            let num = q.mul(&BigU::from_u64(j).shl(1).add(&BigU::one()));
+            around(&mut c, bi(&num.div(&BigU::from_u64(t).shl(1))), 1);
+            around(&mut c, bi(&q.mul_u64(j).div(&BigU::from_u64(t))), 1);
+        }
+    }
+    // just outside the f64 margin of decrypt_mod_t
+    let eps = q.shr(40);
+    around(&mut c, bi(&q.shr(1)).sub(&bi(&eps)), 1);
+    around(&mut c, bi(&q.shr(1)).add(&bi(&eps)), 1);
+    // generic fill
+    for i in 0..6u64 {
+        let k = h64(&(seed, i, "c10-fill")) | 1;
+        c.push(bi(&q.mul_u64(k).shr(64)));
+    }
+    let mut v: Vec<BigU> = c.into_iter().filter(|x| !x.neg && x.mag < q).map(|x| x.mag).collect();
+    v.sort();
+    v.dedup();
+    v
+}
+
+// ------------------------------------------------------------------------------------------
+// section rnsbase
+// ------------------------------------------------------------------------------------------
+
+#[derive(Serialize, Deserialize, Clone, Debug)]
+pub struct BaseCase {
+    pub moduli: Vec<u64>,
+    /// enumerate all integers below the product (and all residue vectors)
+    pub all: bool,
+}
+
+fn base_key(c: &BaseCase, tail: &str) -> String {
+    format!("rnsbase:k={}:{}:{}", c.moduli.len(), if c.all { "all" } else { "boundary" }, tail)
+}
+
+fn check_base(c: &BaseCase, seed: u64) -> CaseOut {
+    he::env_real(seed, h64(&(c.moduli.as_slice(), c.all)));
+    match run_base(c, seed) {
+        Ok(Some(acc)) => CaseOut::pass(acc.mask.count_ones() > 1, h64(&("rnsbase", c.moduli.len(), acc.mask)), acc.steps),
+        Ok(None) => CaseOut::skip("moduli not pairwise coprime: refused as required"),
+        Err(b) => CaseOut::fail(base_key(c, &b.what), b.exp, b.obs),
+    }
+}
+
+fn run_base(c: &BaseCase, seed: u64) -> Result<Option<Acc>, Bad> {
+    let m = &c.moduli;
+    let k = m.len();
+    let mut acc = Acc::default();
+    let built = call("new", || RNSBase::new(&mods(m)))?;
+    let coprime = pairwise_coprime(m);
+    let base = match (built, coprime) {
+        (Ok(b), true) => b,
+        (Err(_), false) => return Ok(None),
+        (Ok(_), false) => return Err(bad("new:accepted-non-coprime", "Err for moduli that are not pairwise coprime".into(), format!("Ok for {m:?}"))),
+        (Err(e), true) => return Err(bad("new:refused-coprime", format!("Ok for pairwise coprime {m:?}"), e)),
+    };
+    let p = BigU::product(m);
+    // constructor constants
+    if base.len() != k || base.base().iter().map(|x| x.value()).collect::<Vec<_>>() != *m {
+        return Err(bad("const:base", format!("{m:?}"), format!("len {}", base.len())));
+    }
+    if BigU::from_limbs(base.base_prod()) != p || base.base_prod().len() != k {
+        return Err(bad("const:base_prod", p.to_hex(), format!("{:x?}", base.base_prod())));
+    }
+    for i in 0..k {
+        let punct = p.div(&BigU::from_u64(m[i]));
+        if BigU::from_limbs(&base.punctured_prod()[i]) != punct {
+            return Err(bad("const:punctured_prod", format!("i={i} {}", punct.to_hex()), format!("{:x?}", base.punctured_prod()[i])));
+        }
+        let inv = inv_mod_u64(punct.rem_u64(m[i]), m[i]).unwrap();
+        let op = &base.inv_punctured_prod_mod_base()[i];
+        let quo = (((inv as u128) << 64) / m[i] as u128) as u64;
+        if op.operand != inv || op.quotient != quo {
+            return Err(bad("const:inv_punctured_prod", format!("i={i} operand={inv} quotient={quo}"), format!("operand={} quotient={}", op.operand, op.quotient)));
+        }
+        acc.steps += 2;
+    }
+    // derived bases (extend / drop) keep the invariants
+    if k >= 2 {
+        let d = call("drop_last", || base.drop_last())?.map_err(|e| bad("drop_last:refused", "Ok".into(), e))?;
+        let pd = p.div(&BigU::from_u64(m[k - 1]));
+        if d.len() != k - 1 || BigU::from_limbs(d.base_prod()) != pd {
+            return Err(bad("drop_last:wrong", pd.to_hex(), format!("{:x?}", d.base_prod())));
+        }
+        let e = call("extend_modulus", || d.extend_modulus(&Modulus::new(m[k - 1])))?.map_err(|e| bad("extend_modulus:refused", "Ok".into(), e))?;
+        if BigU::from_limbs(e.base_prod()) != p || e.base().last().map(|x| x.value()) != Some(m[k - 1]) {
+            return Err(bad("extend_modulus:wrong", p.to_hex(), format!("{:x?}", e.base_prod())));
+        }
+        if !(d.is_proper_subbase_of(&base) && base.is_superbase_of(&d) && !base.is_subbase_of(&d) && base.contains(&Modulus::new(m[0]))) {
+            return Err(bad("subbase-predicates", "d proper subbase of base".into(), "predicate mismatch".into()));
+        }
+        acc.steps += 3;
+    }
+    // values
+    let xs: Vec<BigU> = if c.all { (0..p.to_u64().unwrap()).map(BigU::from_u64).collect() } else { boundary_xs(m, 0, seed) };
+    // single form
+    for x in &xs {
+        let exp_res = res_u(x, m);
+        let mut buf = x.limbs(k);
+        call("decompose", || base.decompose(&mut buf))?;
+        if buf != exp_res {
+            return Err(bad("decompose:wrong", format!("x={} -> {exp_res:?}", x.to_hex()), format!("{buf:?}")));
+        }
+        call("compose", || base.compose(&mut buf))?;
+        if buf != x.limbs(k) {
+            return Err(bad("compose:wrong", format!("{exp_res:?} -> {}", x.to_hex()), format!("{buf:x?}")));
+        }
+        acc.steps += 2;
+        if exp_res.iter().zip(m).any(|(r, _)| BigU::from_u64(*r) != *x) {
+            acc.mask |= 1; // a reduction took place
+        } else {
+            acc.mask |= 2;
+        }
+    }
+    // every residue vector (odometer) composes to the integer the reference CRT gives, and decomposes back
+    if c.all && k > 1 {
+        let mut r = vec![0u64; k];
+        let mut seen = vec![false; p.to_u64().unwrap() as usize];
+        loop {
+            let mut buf = r.clone();
+            call("compose", || base.compose(&mut buf))?;
+            let v = BigU::from_limbs(&buf);
+            let e = crt(&r, m);
+            if v != e {
+                return Err(bad("compose:wrong", format!("{r:?} -> {}", e.to_hex()), format!("{buf:x?}")));
+            }
+            let idx = v.to_u64().unwrap() as usize;
+            if seen[idx] {
+                return Err(bad("compose:not-injective", "distinct integers for distinct residue vectors".into(), format!("{r:?} -> {idx} twice")));
+            }
+            seen[idx] = true;
+            call("decompose", || base.decompose(&mut buf))?;
+            if buf != r {
+                return Err(bad("decompose:wrong", format!("{r:?}"), format!("{buf:?}")));
+            }
+            acc.steps += 2;
+            // next
+            let mut i = 0;
+            loop {
+                r[i] += 1;
+                if r[i] < m[i] {
+                    break;
+                }
+                r[i] = 0;
+                i += 1;
+                if i == k {
+                    break;
+                }
+            }
+            if i == k {
+                break;
+            }
+        }
+        if seen.iter().any(|s| !s) {
+            return Err(bad("compose:not-surjective", "every integer below the product is reached".into(), "gap".into()));
+        }
+        acc.mask |= 4;
+    }
+    // array forms: `count` integers of k limbs each (value-major) <-> component-major residues
+    for count in 1..=5usize {
+        let stride = if c.all { count } else { 1 };
+        let mut s = 0usize;
+        while s < xs.len() {
+            let win: Vec<&BigU> = (0..count).map(|j| &xs[(s + j) % xs.len()]).collect();
+            let mut buf: Vec<u64> = win.iter().flat_map(|x| x.limbs(k)).collect();
+            let orig = buf.clone();
+            let mut exp = vec![0u64; count * k];
+            for (j, x) in win.iter().enumerate() {
+                for i in 0..k {
+                    exp[i * count + j] = x.rem_u64(m[i]);
+                }
+            }
+            call("decompose_array", || base.decompose_array(&mut buf))?;
+            if buf != exp {
+                return Err(bad("decompose_array:wrong", format!("count={count} values={orig:x?} -> {exp:?}"), format!("{buf:?}")));
+            }
+            call("compose_array", || base.compose_array(&mut buf))?;
+            if buf != orig {
+                return Err(bad("compose_array:wrong", format!("count={count} {exp:?} -> {orig:x?}"), format!("{buf:x?}")));
+            }
+            acc.steps += 2;
+            acc.mask |= 8 << count.min(2);
+            s += stride;
+        }
+    }
+    Ok(Some(acc))
+}
+
+fn p1(bits: usize, count: usize) -> Vec<u64> {
+    primes_1_mod(4, bits, count)
+}
+
+fn base_alphabet() -> Vec<u64> {
+    vec![3, 5, 7, 11, 13, 16, 17, 1 << 32, p1(30, 1)[0], p1(59, 1)[0], p1(60, 1)[0], p1(61, 1)[0]]
+}
+
+fn ordered_subsets(al: &[u64], size: usize) -> Vec<Vec<u64>> {
+    let mut out: Vec<Vec<u64>> = vec![vec![]];
+    for _ in 0..size {
+        let mut next = vec![];
+        for v in &out {
+            for &a in al {
+                if !v.contains(&a) {
+                    let mut w = v.clone();
+                    w.push(a);
+                    next.push(w);
+                }
+            }
+        }
+        out = next;
+    }
+    out
+}
+
+fn base_cases(thorough: bool) -> Vec<BaseCase> {
+    let al = base_alphabet();
+    let all_limit: u128 = if thorough { 1_400_000 } else { 1 << 18 };
+    let mut bases: Vec<Vec<u64>> = vec![];
+    for size in 1..=(if thorough { 4 } else { 3 }) {
+        bases.extend(ordered_subsets(&al, size));
+    }
+    // larger bases: ascending / descending / rotated
+    let mut big: Vec<Vec<u64>> = vec![
+        vec![3, 5, 7, 11, 13, 16],
+        p1(61, 8),
+        p1(60, 6),
+        p1(60, 4),
+        p1(59, 5),
+        vec![p1(30, 1)[0], p1(60, 1)[0], p1(40, 1)[0], p1(59, 1)[0], 1 << 32, 17],
+        vec![p1(61, 2)[1], 3, p1(61, 1)[0], 16, p1(20, 1)[0]],
+    ];
+    if thorough {
+        big.push(vec![3, 7, 11, 13, 16, 17]);
+        big.push(vec![5, 7, 11, 13, 17, 3, 4]);
+        big.push(vec![3, 5, 7, 11, 13, 17, 19]);
+        big.push(p1(60, 8));
+        big.push(p1(61, 7).into_iter().chain([1 << 32]).collect());
+        let mut mixed = p1(60, 3);
+        mixed.extend(p1(30, 3));
+        mixed.extend([5, 1 << 32]);
+        big.push(mixed);
+    }
+    for b in big {
+        let mut d = b.clone();
+        d.reverse();
+        let mut r = b.clone();
+        r.rotate_left(b.len() / 2);
+        bases.push(b);
+        bases.push(d);
+        bases.push(r);
+    }
+    bases
+        .into_iter()
+        .map(|m| {
+            let prod = m.iter().fold(1u128, |a, &x| a.saturating_mul(x as u128));
+            let all = pairwise_coprime(&m) && prod < all_limit;
+            BaseCase { moduli: m, all }
+        })
+        .collect()
+}
+
+// ------------------------------------------------------------------------------------------
+// RNSTool: auxiliary data read from the accessors (validated by the routine "constants")
+// ------------------------------------------------------------------------------------------
+
+struct Aux {
+    n: usize,
+    q: Vec<u64>,
+    qp: BigU,
+    b: Vec<u64>,
+    bp: BigU,
+    bsk: Vec<u64>,
+    bskp: BigU,
+    msk: u64,
+    mt: u64,
+    t: u64,
+    gamma: u64,
+}
+
+fn aux_of(tool: &RNSTool, n: usize, t: u64) -> Result<Aux, Bad> {
+    let vals = |b: &RNSBase| b.base().iter().map(|x| x.value()).collect::<Vec<u64>>();
+    let q = vals(tool.base_q());
+    let b = vals(tool.base_B());
+    let bsk = vals(tool.base_Bsk());
+    let bskmt = vals(tool.base_Bsk_m_tilde());
+    let gamma = match tool.base_t_gamma() {
+        Some(tg) => {
+            let v = vals(tg);
+            if v.len() != 2 || v[0] != t {
+                return Err(bad("const:base_t_gamma", format!("[t={t}, gamma]"), format!("{v:?}")));
+            }
+            v[1]
+        }
+        None => {
+            if t != 0 {
+                return Err(bad("const:base_t_gamma", "Some for t != 0".into(), "None".into()));
+            }
+            0
+        }
+    };
+    if bsk.len() != b.len() + 1 || bsk[..b.len()] != b[..] || bskmt.len() != bsk.len() + 1 || bskmt[..bsk.len()] != bsk[..] {
+        return Err(bad("const:aux-bases", "Bsk = B ++ [m_sk], Bsk_m_tilde = Bsk ++ [m_tilde]".into(), format!("B={b:?} Bsk={bsk:?} Bsk_mt={bskmt:?}")));
+    }
+    Ok(Aux {
+        n,
+        qp: BigU::product(&q),
+        bp: BigU::product(&b),
+        bskp: BigU::product(&bsk),
+        msk: bsk[b.len()],
+        mt: bskmt[bsk.len()],
+        q,
+        b,
+        bsk,
+        t,
+        gamma,
+    })
+}
+
+/// BigI X with 0 <= v < P  ->  residues;  centred CRT composition over `m`
+fn crt_centered(r: &[u64], m: &[u64], p: &BigU) -> BigI {
+    centered(&crt(r, m), p)
+}
+
+fn chunks<'a, T>(v: &'a [T], n: usize) -> impl Iterator<Item = &'a [T]> {
+    v.chunks(n)
+}
+
+// ---- constants ---------------------------------------------------------------------------
+
+fn r_constants(tool: &RNSTool, a: &Aux, acc: &mut Acc) -> Result<(), Bad> {
+    let k = a.q.len();
+    let two_n = 2 * a.n as u64;
+    // auxiliary primes: distinct 61-bit primes = 1 mod 2N, coprime to q and t; m_tilde = 2^32
+    let mut auxp = a.bsk.clone();
+    if a.t != 0 {
+        auxp.push(a.gamma);
+    }
+    for &p in &auxp {
+        if !(is_prime_u64(p) && p >> 60 == 1 && p % two_n == 1 && !a.q.contains(&p) && p != a.t) {
+            return Err(bad("const:aux-prime", "61-bit prime = 1 mod 2N not in q".into(), format!("{p}")));
+        }
+    }
+    let mut s = auxp.clone();
+    s.sort();
+    s.dedup();
+    if s.len() != auxp.len() || a.mt != 1 << 32 {
+        return Err(bad("const:aux-distinct", "distinct auxiliary primes, m_tilde = 2^32".into(), format!("{auxp:?} mt={}", a.mt)));
+    }
+    if !(a.b.len() == k || a.b.len() == k + 1) {
+        return Err(bad("const:B-size", format!("{k} or {}", k + 1), format!("{}", a.b.len())));
+    }
+    // sizing invariant quoted in RNSTool::new: K n t q^2 < q B m_sk with 32 bits reserved for K n
+    let lhs = BigU::pow2(32).mul_u64(a.t.max(1)).mul(&a.qp);
+    if lhs >= a.bskp {
+        return Err(bad("const:aux-sizing", format!("2^32 t Q = {} < B m_sk", lhs.to_hex()), a.bskp.to_hex()));
+    }
+    let opchk = |what: &str, op: &heathcliff::util::MultiplyU64ModOperand, v: u64, m: u64| -> Result<(), Bad> {
+        let quo = (((v as u128) << 64) / m as u128) as u64;
+        if op.operand != v || op.quotient != quo {
+            return Err(bad(&format!("const:{what}"), format!("operand={v} quotient={quo} (mod {m})"), format!("operand={} quotient={}", op.operand, op.quotient)));
+        }
+        Ok(())
+    };
+    for (i, &p) in a.bsk.iter().enumerate() {
+        opchk("inv_prod_q_mod_Bsk", &tool.inv_prod_q_mod_Bsk()[i], inv_mod_u64(a.qp.rem_u64(p), p).unwrap(), p)?;
+    }
+    let iq = inv_mod_u64(a.qp.rem_u64(a.mt), a.mt).ok_or_else(|| bad("const:q-even", "odd Q".into(), "Q not invertible mod m_tilde".into()))?;
+    opchk("neg_inv_prod_q_mod_m_tilde", tool.neg_inv_prod_q_mod_m_tilde(), (a.mt - iq) % a.mt, a.mt)?;
+    opchk("inv_prod_B_mod_m_sk", tool.inv_prod_B_mod_m_sk(), inv_mod_u64(a.bp.rem_u64(a.msk), a.msk).unwrap(), a.msk)?;
+    let pbq: Vec<u64> = a.q.iter().map(|&p| a.bp.rem_u64(p)).collect();
+    if *tool.prod_B_mod_q() != pbq {
+        return Err(bad("const:prod_B_mod_q", format!("{pbq:?}"), format!("{:?}", tool.prod_B_mod_q())));
+    }
+    let ql = a.q[k - 1];
+    if tool.inv_q_last_mod_q().len() != k - 1 {
+        return Err(bad("const:inv_q_last_mod_q", format!("{} entries", k - 1), format!("{}", tool.inv_q_last_mod_q().len())));
+    }
+    for i in 0..k - 1 {
+        opchk("inv_q_last_mod_q", &tool.inv_q_last_mod_q()[i], inv_mod_u64(ql % a.q[i], a.q[i]).unwrap(), a.q[i])?;
+    }
+    if a.t != 0 {
+        let e = inv_mod_u64(ql % a.t, a.t).unwrap();
+        if tool.inv_q_last_mod_t() != e {
+            return Err(bad("const:inv_q_last_mod_t", format!("{e}"), format!("{}", tool.inv_q_last_mod_t())));
+        }
+        match tool.inv_gamma_mod_t() {
+            Some(op) => opchk("inv_gamma_mod_t", op, inv_mod_u64(a.gamma % a.t, a.t).unwrap(), a.t)?,
+            None => return Err(bad("const:inv_gamma_mod_t", "Some".into(), "None".into())),
+        }
+    }
+    if tool.base_Bsk_ntt_tables().len() != a.bsk.len() || tool.base_Bsk_ntt_tables().iter().any(|t| t.coeff_count() != a.n) {
+        return Err(bad("const:Bsk_ntt_tables", format!("{} tables of degree {}", a.bsk.len(), a.n), format!("{}", tool.base_Bsk_ntt_tables().len())));
+    }
+    acc.steps += (a.bsk.len() + 2 * k + 6) as u64;
+    acc.mask |= if a.b.len() == k { 1 } else { 2 };
+    acc.mask |= 4; // always counted as non-trivial: values of 61-bit inverses
+    Ok(())
+}
+
+// ---- fastbconv_m_tilde -------------------------------------------------------------------
+
+fn r_fastbconv_m_tilde(tool: &RNSTool, a: &Aux, xs: &[BigU], acc: &mut Acc) -> Result<(), Bad> {
+    let (n, k) = (a.n, a.q.len());
+    let mut om = a.bsk.clone();
+    om.push(a.mt);
+    for ch in chunks(xs, n) {
+        let input = pack(&ch.iter().map(|x| res_u(x, &a.q)).collect::<Vec<_>>(), n, k);
+        let mut dest = vec![0u64; om.len() * n];
+        call("fastbconv_m_tilde", || tool.fastbconv_m_tilde(&input, &mut dest))?;
+        for (j, x) in ch.iter().enumerate() {
+            let c = x.mul_u64(a.mt).rem(&a.qp);
+            let got = column(&dest, n, om.len(), j);
+            let alpha = (0..k as u64).find(|&al| res_u(&c.add(&a.qp.mul_u64(al)), &om) == got);
+            match alpha {
+                Some(al) => acc.mask |= 1 << al,
+                None => {
+                    return Err(bad(
+                        "fastbconv_m_tilde:no-alpha",
+                        format!("x={} : residues mod {om:?} of |m~ x|_Q + a Q = {} + a*{} for one a in [0,{}]", x.to_hex(), c.to_hex(), a.qp.to_hex(), k - 1),
+                        format!("{got:?}"),
+                    ))
+                }
+            }
+            acc.steps += 1;
+        }
+    }
+    Ok(())
+}
+
+// ---- sm_mrq ------------------------------------------------------------------------------
+
+fn r_sm_mrq(tool: &RNSTool, a: &Aux, xs: &[BigU], acc: &mut Acc) -> Result<(), Bad> {
+    let (n, k) = (a.n, a.q.len());
+    let mut im = a.bsk.clone();
+    im.push(a.mt);
+    // every overshoot the Montgomery window allows, not only the one fastbconv_m_tilde happens to produce
+    let mut items: Vec<BigU> = vec![];
+    for x in xs {
+        let c = x.mul_u64(a.mt).rem(&a.qp);
+        for al in 0..k as u64 {
+            items.push(c.add(&a.qp.mul_u64(al)));
+        }
+    }
+    // extremes of the centred Montgomery digit r = |-c'' Q^-1|_mt: c'' = -r Q (mod mt) inside [aQ, (a+1)Q)
+    if a.qp.bits() > 34 {
+        let qlow = a.qp.rem_u64(a.mt);
+        for al in 0..k as u64 {
+            let lo = a.qp.mul_u64(al);
+            for r in [1u64 << 31, (1 << 31) - 1, (1 << 31) + 1, 0, 1, (1 << 32) - 1] {
+                let want = (a.mt - mul_mod(r, qlow, a.mt)) % a.mt; // -r Q mod 2^32
+                let base = lo.shr(32).shl(32).add(&BigU::from_u64(want));
+                let c = if base < lo { base.add(&BigU::from_u64(a.mt)) } else { base };
+                items.push(c);
+            }
+        }
+    }
+    let qi = bi(&a.qp);
+    let upper = bi(&a.qp.mul_u64(a.mt).add(&a.qp.mul_u64(2 * (k as u64 - 1))));
+    for ch in chunks(&items, n) {
+        let input = pack(&ch.iter().map(|c| res_u(c, &im)).collect::<Vec<_>>(), n, im.len());
+        let mut dest = vec![0u64; a.bsk.len() * n];
+        call("sm_mrq", || tool.sm_mrq(&input, &mut dest))?;
+        for (j, c) in ch.iter().enumerate() {
+            let got = column(&dest, n, a.bsk.len(), j);
+            if got.iter().zip(&a.bsk).any(|(r, p)| r >= p) {
+                return Err(bad("sm_mrq:unreduced", "residues below their moduli".into(), format!("{got:?}")));
+            }
+            let y = crt_centered(&got, &a.bsk, &a.bskp);
+            let two_y = y.add(&y);
+            // m~ y = c'' (mod Q)  <=>  y = x (mod Q) for c'' = |m~ x|_Q + aQ (m~ is invertible modulo the odd Q)
+            let congruent = y.mul(&bi64(a.mt)).sub(&bi(c)).rem_u(&a.qp).is_zero();
+            let lo_ok = two_y.cmp(&qi.negate()) != std::cmp::Ordering::Less;
+            let hi_ok = two_y.mul(&bi64(a.mt)).cmp(&upper) == std::cmp::Ordering::Less;
+            if !(congruent && lo_ok && hi_ok) {
+                return Err(bad(
+                    if !congruent { "sm_mrq:not-congruent" } else { "sm_mrq:outside-window" },
+                    format!("c''={} (= |m~ x|_Q + aQ, a <= k-1) : m~ y = c'' (mod Q), -Q/2 <= y < Q/2 + (k-1)Q/m~", c.to_hex()),
+                    format!("y={} residues {got:?}", show(&y)),
+                ));
+            }
+            acc.mask |= if y.neg { 1 } else if two_y.cmp(&qi) == std::cmp::Ordering::Greater { 4 } else { 2 };
+            acc.steps += 1;
+        }
+    }
+    Ok(())
+}
+
+// ---- fast_floor --------------------------------------------------------------------------
+
+fn floor_quotients(a: &Aux, all: bool) -> Vec<BigI> {
+    let tq = bi(&a.qp.mul_u64(a.t.max(1)));
+    let mut h = vec![bi64(0), bi64(1), BigI::from_i128(-1), BigI::from_i128(-2), tq.clone(), tq.negate()];
+    if !all {
+        h.extend([bi64(2), bi64(a.q.len() as u64), BigI::from_i128(-(a.q.len() as i128))]);
+        let big = bi(&BigU::pow2(30).mul(&tq.mag));
+        h.extend([big.clone(), big.negate(), big.sub(&bi64(1))]);
+        let half = bi(&a.bskp.shr(1));
+        h.extend([half.clone(), half.negate(), half.sub(&bi64(1))]);
+    }
+    h
+}
+
+fn find_alpha(got: &[u64], f: &BigI, k: usize, m: &[u64]) -> Option<u64> {
+    (0..k as u64).find(|&al| res_i(&f.sub(&bi64(al)), m) == got)
+}
+
+fn r_fast_floor(tool: &RNSTool, a: &Aux, xs: &[BigU], all: bool, acc: &mut Acc) -> Result<(), Bad> {
+    let (n, k) = (a.n, a.q.len());
+    let mut im = a.q.clone();
+    im.extend(&a.bsk);
+    let qi = bi(&a.qp);
+    let mut items: Vec<BigI> = vec![];
+    for h in floor_quotients(a, all) {
+        for x in xs {
+            items.push(bi(x).add(&qi.mul(&h)));
+        }
+    }
+    for ch in chunks(&items, n) {
+        let input = pack(&ch.iter().map(|v| res_i(v, &im)).collect::<Vec<_>>(), n, im.len());
+        let mut dest = vec![0u64; a.bsk.len() * n];
+        call("fast_floor", || tool.fast_floor(&input, &mut dest))?;
+        for (j, v) in ch.iter().enumerate() {
+            let f = v.div_floor(&a.qp);
+            let got = column(&dest, n, a.bsk.len(), j);
+            match find_alpha(&got, &f, k, &a.bsk) {
+                Some(al) => acc.mask |= (1 << al) | if v.neg { 1 << 32 } else { 0 },
+                None => {
+                    return Err(bad(
+                        "fast_floor:no-alpha",
+                        format!("a={} : residues mod Bsk of floor(a/Q) - a' = {} - a', a' in [0,{}]", show(v), show(&f), k - 1),
+                        format!("{got:?}"),
+                    ))
+                }
+            }
+            acc.steps += 1;
+        }
+    }
+    Ok(())
+}
+
+// ---- fastbconv_sk ------------------------------------------------------------------------
+
+fn r_fastbconv_sk(tool: &RNSTool, a: &Aux, xs: &[BigU], all: bool, acc: &mut Acc) -> Result<(), Bad> {
+    let (n, k) = (a.n, a.q.len());
+    let bi_b = bi(&a.bp);
+    let half_msk = (a.msk / 2) as i128;
+    let e_min = a.b.len() as i128 - 1 - half_msk;
+    let e_max = half_msk;
+    let mut items: Vec<BigI> = vec![];
+    // every residue vector of q as target (tiny bases), both signs
+    for x in xs {
+        items.push(bi(x));
+        items.push(bi(x).negate());
+    }
+    // boundary positions inside [0,B) x boundary quotients e = floor(X/B)
+    let mut ys: Vec<BigU> = boundary_xs(&a.b, 0, 7);
+    if all {
+        ys.truncate(0);
+        ys.extend([BigU::zero(), BigU::one(), a.bp.shr(1), a.bp.shr(1).add(&BigU::one()), a.bp.sub(&BigU::one())]);
+    }
+    let es: Vec<i128> = vec![0, -1, 1, 2, -2, a.t.max(1) as i128, 1 << 32, -(1 << 32), e_max, e_max - 1, e_min, e_min + 1];
+    for &e in &es {
+        for y in &ys {
+            items.push(bi(y).add(&bi_b.mul(&BigI::from_i128(e))));
+        }
+    }
+    for ch in chunks(&items, n) {
+        let input = pack(&ch.iter().map(|v| res_i(v, &a.bsk)).collect::<Vec<_>>(), n, a.bsk.len());
+        let mut dest = vec![0u64; k * n];
+        call("fastbconv_sk", || tool.fastbconv_sk(&input, &mut dest))?;
+        for (j, v) in ch.iter().enumerate() {
+            let exp = res_i(v, &a.q);
+            let got = column(&dest, n, k, j);
+            let two = v.add(v);
+            let core = two.cmp(&bi_b.negate()) != std::cmp::Ordering::Less && two.cmp(&bi_b) == std::cmp::Ordering::Less;
+            if got != exp {
+                return Err(bad(
+                    if core { "fastbconv_sk:core:wrong" } else { "fastbconv_sk:ext:wrong" },
+                    format!("X={} (floor(X/B)={}) -> X mod q = {exp:?}", show(v), show(&v.div_floor(&a.bp))),
+                    format!("{got:?}"),
+                ));
+            }
+            let cls: u64 = if core { 1 } else { 2 };
+            acc.mask |= cls << if v.neg { 2 } else { 0 };
+            acc.steps += 1;
+        }
+    }
+    Ok(())
+}
+
+// ---- steps 6-8 of bfv_multiply -----------------------------------------------------------
+
+fn r_floor_chain(tool: &RNSTool, a: &Aux, xs: &[BigU], all: bool, acc: &mut Acc) -> Result<(), Bad> {
+    let (n, k) = (a.n, a.q.len());
+    let mut im = a.q.clone();
+    im.extend(&a.bsk);
+    let qi = bi(&a.qp);
+    let tt = bi64(a.t.max(1));
+    let mut items: Vec<BigI> = vec![];
+    for x in xs {
+        let v = bi(x);
+        items.push(v.clone());
+        items.push(v.negate().sub(&bi64(1)));
+        // product of two centred-size operands
+        items.push(v.mul(&qi.sub(&v)));
+        items.push(v.mul(&qi.sub(&v)).negate());
+    }
+    if !all {
+        let qq = qi.mul(&qi);
+        let top = bi(&BigU::pow2(30)).mul(&qq);
+        for base in [top.clone(), bi(&qq.mag.shr(2)), qq.clone()] {
+            for d in -1..=1i128 {
+                items.push(base.add(&BigI::from_i128(d)));
+                items.push(base.add(&BigI::from_i128(d)).negate());
+            }
+        }
+    }
+    for ch in chunks(&items, n) {
+        let scaled: Vec<BigI> = ch.iter().map(|v| v.mul(&tt)).collect();
+        let input = pack(&scaled.iter().map(|v| res_i(v, &im)).collect::<Vec<_>>(), n, im.len());
+        let mut mid = vec![0u64; a.bsk.len() * n];
+        call("fast_floor", || tool.fast_floor(&input, &mut mid))?;
+        let mut dest = vec![0u64; k * n];
+        call("fastbconv_sk", || tool.fastbconv_sk(&mid, &mut dest))?;
+        for (j, v) in scaled.iter().enumerate() {
+            let f = v.div_floor(&a.qp);
+            let got = column(&dest, n, k, j);
+            match find_alpha(&got, &f, k, &a.q) {
+                Some(al) => acc.mask |= (1 << al) | if v.neg { 1 << 32 } else { 0 },
+                None => {
+                    return Err(bad(
+                        "floor_chain:no-alpha",
+                        format!("t*a={} : residues mod q of floor(t a/Q) - a' = {} - a', a' in [0,{}]", show(v), show(&f), k - 1),
+                        format!("{got:?}"),
+                    ))
+                }
+            }
+            acc.steps += 1;
+        }
+    }
+    Ok(())
+}
+
+// ---- divisions by the last modulus -------------------------------------------------------
+
+/// which = false: divide_and_round_q_last ; true: mod_t_and_divide_q_last
+fn r_div_last(tool: &RNSTool, a: &Aux, ntt: Option<&[NTTTables]>, xs: &[BigU], bgv: bool, acc: &mut Acc) -> Result<(), Bad> {
+    let (n, k) = (a.n, a.q.len());
+    let name = if bgv { "mod_t_and_divide_q_last" } else { "divide_and_round_q_last" };
+    let ql = a.q[k - 1];
+    let qlu = BigU::from_u64(ql);
+    let rest = &a.q[..k - 1];
+    let inv_ql_t = if bgv { inv_mod_u64(ql % a.t, a.t).unwrap() } else { 0 };
+    for ch in chunks(xs, n) {
+        let input = pack(&ch.iter().map(|x| res_u(x, &a.q)).collect::<Vec<_>>(), n, k);
+        // expected integers
+        let exp: Vec<BigI> = ch
+            .iter()
+            .map(|x| {
+                if bgv {
+                    // y in [F - t + 1, F], y = x q_last^-1 (mod t)
+                    let f = x.div(&qlu);
+                    let rho = mul_mod(x.rem_u64(a.t), inv_ql_t, a.t);
+                    let d = sub_mod(f.rem_u64(a.t), rho, a.t);
+                    bi(&f).sub(&bi64(d))
+                } else {
+                    bi(&x.add(&BigU::from_u64(ql >> 1)).div(&qlu))
+                }
+            })
+            .collect();
+        let mut coef = input.clone();
+        call(name, || if bgv { tool.mod_t_and_divide_q_last_inplace(&mut coef) } else { tool.divide_and_round_q_last_inplace(&mut coef) })?;
+        for (j, x) in ch.iter().enumerate() {
+            let e = res_i(&exp[j], rest);
+            let got = column(&coef, n, k - 1, j);
+            if got != e {
+                return Err(bad(
+                    &format!("{name}:coeff:wrong"),
+                    format!("x={} q_last={ql} t={} -> {} mod {rest:?} = {e:?}", x.to_hex(), a.t, show(&exp[j])),
+                    format!("{got:?}"),
+                ));
+            }
+            if bgv {
+                // the defining property, stated independently of the formula above
+                let lhs = mul_mod(exp[j].rem_u64(a.t), ql % a.t, a.t);
+                if lhs != x.rem_u64(a.t) {
+                    return Err(bad("oracle-self-check", "y q_last = x mod t".into(), format!("{lhs}")));
+                }
+                acc.mask |= if exp[j].neg { 1 } else { 2 };
+            } else {
+                acc.mask |= if x.rem_u64(ql) > (ql - 1) / 2 { 1 } else { 2 };
+            }
+            acc.steps += 1;
+        }
+        if let Some(tabs) = ntt {
+            let mut f = input.clone();
+            for i in 0..k {
+                call("ntt", || tabs[i].ntt_negacyclic_harvey(&mut f[i * n..(i + 1) * n]))?;
+            }
+            call(&format!("{name}_ntt"), || {
+                if bgv {
+                    tool.mod_t_and_divide_q_last_ntt_inplace(&mut f, tabs)
+                } else {
+                    tool.divide_and_round_q_last_ntt_inplace(&mut f, tabs)
+                }
+            })?;
+            let mut fwd = coef.clone();
+            for i in 0..k - 1 {
+                call("ntt", || tabs[i].ntt_negacyclic_harvey(&mut fwd[i * n..(i + 1) * n]))?;
+            }
+            if f[..(k - 1) * n] != fwd[..(k - 1) * n] {
+                let mut back = f.clone();
+                for i in 0..k - 1 {
+                    call("intt", || tabs[i].inverse_ntt_negacyclic_harvey(&mut back[i * n..(i + 1) * n]))?;
+                }
+                return Err(bad(
+                    &format!("{name}:ntt-differs"),
+                    format!("x={:?} : NTT of the coefficient-form result {:?} (coefficients {:?})", ch.iter().map(|x| x.to_hex()).collect::<Vec<_>>(), &fwd[..(k - 1) * n], &coef[..(k - 1) * n]),
+                    format!("{:?} (inverse transform {:?})", &f[..(k - 1) * n], &back[..(k - 1) * n]),
+                ));
+            }
+            acc.steps += ch.len() as u64;
+            acc.mask |= 1 << 8;
+        }
+    }
+    Ok(())
+}
+
+// ---- decryption roundings ----------------------------------------------------------------
+
+fn r_scale_round(tool: &RNSTool, a: &Aux, xs: &[BigU], acc: &mut Acc) -> Result<(), Bad> {
+    let (n, k) = (a.n, a.q.len());
+    let tb = BigU::from_u64(a.t);
+    for ch in chunks(xs, n) {
+        let input = pack(&ch.iter().map(|x| res_u(x, &a.q)).collect::<Vec<_>>(), n, k);
+        let mut dest = vec![0u64; n];
+        call("decrypt_scale_and_round", || tool.decrypt_scale_and_round(&input, &mut dest))?;
+        for (j, x) in ch.iter().enumerate() {
+            let (m0, r) = x.mul(&tb).divrem(&a.qp);
+            let two_r = r.shl(1);
+            let down = m0.rem_u64(a.t);
+            let up = m0.add(&BigU::one()).rem_u64(a.t);
+            let allowed: Vec<u64> = if two_r < a.qp {
+                acc.mask |= 1;
+                vec![down]
+            } else if two_r == a.qp {
+                acc.mask |= 8;
+                vec![down, up]
+            } else if two_r.sub(&a.qp).mul_u64(a.gamma) < a.qp.mul_u64(2 * k as u64) {
+                acc.mask |= 4;
+                vec![down, up]
+            } else {
+                acc.mask |= 2;
+                vec![up]
+            };
+            if !allowed.contains(&dest[j]) {
+                return Err(bad(
+                    "decrypt_scale_and_round:wrong",
+                    format!("x={} t={} : round(t x/Q) mod t in {allowed:?} (t x = {} Q + {})", x.to_hex(), a.t, m0.to_hex(), r.to_hex()),
+                    format!("{}", dest[j]),
+                ));
+            }
+            acc.steps += 1;
+        }
+    }
+    Ok(())
+}
+
+fn r_mod_t(tool: &RNSTool, a: &Aux, xs: &[BigU], acc: &mut Acc) -> Result<(), Bad> {
+    let (n, k) = (a.n, a.q.len());
+    for ch in chunks(xs, n) {
+        let input = pack(&ch.iter().map(|x| res_u(x, &a.q)).collect::<Vec<_>>(), n, k);
+        let mut dest = vec![0u64; n];
+        call("decrypt_mod_t", || tool.decrypt_mod_t(&input, &mut dest))?;
+        for (j, x) in ch.iter().enumerate() {
+            let two_x = x.shl(1);
+            let pos = x.rem_u64(a.t);
+            let neg = bi(x).sub(&bi(&a.qp)).rem_u64(a.t);
+            let dist = if two_x >= a.qp { two_x.sub(&a.qp) } else { a.qp.sub(&two_x) }; // |2x - Q|
+            let allowed: Vec<u64> = if dist.shl(40) <= a.qp {
+                acc.mask |= 4;
+                vec![pos, neg]
+            } else if two_x < a.qp {
+                acc.mask |= 1;
+                vec![pos]
+            } else {
+                acc.mask |= 2;
+                vec![neg]
+            };
+            if !allowed.contains(&dest[j]) {
+                return Err(bad("decrypt_mod_t:wrong", format!("x={} t={} : centred |x|_Q mod t in {allowed:?}", x.to_hex(), a.t), format!("{}", dest[j])));
+            }
+            acc.steps += 1;
+        }
+    }
+    Ok(())
+}
+
+// ------------------------------------------------------------------------------------------
+// tool sections
+// ------------------------------------------------------------------------------------------
+
+const ROUTINES: &[&str] = &[
+    "constants",
+    "fastbconv_m_tilde",
+    "sm_mrq",
+    "fast_floor",
+    "fastbconv_sk",
+    "floor_chain",
+    "divide_and_round_q_last",
+    "mod_t_and_divide_q_last",
+    "decrypt_scale_and_round",
+    "decrypt_mod_t",
+];
+
+fn applicable(routine: &str, k: usize, t: u64) -> bool {
+    match routine {
+        "divide_and_round_q_last" => k >= 2,
+        "mod_t_and_divide_q_last" => k >= 2 && t != 0,
+        "decrypt_scale_and_round" | "decrypt_mod_t" => t != 0,
+        _ => true,
+    }
+}
+
+fn run_routine(routine: &str, tool: &RNSTool, a: &Aux, ntt: Option<&[NTTTables]>, xs: &[BigU], all: bool, acc: &mut Acc) -> Result<(), Bad> {
+    match routine {
+        "constants" => r_constants(tool, a, acc),
+        "fastbconv_m_tilde" => r_fastbconv_m_tilde(tool, a, xs, acc),
+        "sm_mrq" => r_sm_mrq(tool, a, xs, acc),
+        "fast_floor" => r_fast_floor(tool, a, xs, all, acc),
+        "fastbconv_sk" => r_fastbconv_sk(tool, a, xs, all, acc),
+        "floor_chain" => r_floor_chain(tool, a, xs, all, acc),
+        "divide_and_round_q_last" => r_div_last(tool, a, ntt, xs, false, acc),
+        "mod_t_and_divide_q_last" => r_div_last(tool, a, ntt, xs, true, acc),
+        "decrypt_scale_and_round" => r_scale_round(tool, a, xs, acc),
+        "decrypt_mod_t" => r_mod_t(tool, a, xs, acc),
+        _ => Err(bad("unknown-routine", "".into(), routine.into())),
+    }
+}
+
+#[derive(Serialize, Deserialize, Clone, Debug)]
+pub struct ToolCase {
+    pub n: usize,
+    pub q: Vec<u64>,
+    pub t: u64,
+    pub routine: String,
+    /// all integers of [0,Q) (else the boundary set)
+    pub all: bool,
+    /// this case handles the integers x with x % parts == part (all-mode only)
+    pub part: u64,
+    pub parts: u64,
+}
+
+/// Is (q, t) a parameter pair RNSTool::new has to accept?
+fn tool_valid(q: &[u64], t: u64) -> bool {
+    pairwise_coprime(q) && q.iter().all(|&p| p % 2 == 1 && p >= 3 && p < (1 << 60) && (t == 0 || gcd(p, t) == 1)) && (t == 0 || (t >= 2 && t < (1 << 60)))
+}
+
+fn check_tool(section: &str, c: &ToolCase, seed: u64) -> CaseOut {
+    he::env_real(seed, h64(&serde_json::to_string(c).unwrap_or_default()));
+    let k = c.q.len();
+    let key = |tail: &str| format!("{section}:{}:k={k}:{}", c.routine, tail.strip_prefix(&format!("{}:", c.routine)).unwrap_or(tail));
+    let valid = tool_valid(&c.q, c.t);
+    let built = guard(|| RNSBase::new(&mods(&c.q)).and_then(|b| RNSTool::new(c.n, &b, &Modulus::new(c.t))));
+    let tool = match (built, valid) {
+        (Ok(Ok(t)), true) => t,
+        (Ok(Ok(_)), false) => return CaseOut::fail(format!("{section}:new:k={k}:accepted-invalid"), "refusal: q not odd / not coprime to t", format!("q={:?} t={}", c.q, c.t)),
+        (Ok(Err(_)), false) | (Err(_), false) => return CaseOut::skip("parameters outside the domain: refused"),
+        (Ok(Err(e)), true) => return CaseOut::fail(format!("{section}:new:k={k}:refused-valid"), "RNSTool for odd pairwise coprime q coprime to t", e),
+        (Err(p), true) => return CaseOut::fail(format!("{section}:new:k={k}:panic:{}", panic_class(&p)), "RNSTool for odd pairwise coprime q coprime to t", p),
+    };
+    if !applicable(&c.routine, k, c.t) {
+        return CaseOut::skip("routine not applicable (needs t != 0 / two moduli)");
+    }
+    let a = match aux_of(&tool, c.n, c.t) {
+        Ok(a) => a,
+        Err(b) => return CaseOut::fail(key(&b.what), b.exp, b.obs),
+    };
+    // NTT tables when every q_i is a prime = 1 mod 2N
+    let ntt: Option<Vec<NTTTables>> = if c.q.iter().all(|&p| is_prime_u64(p) && p % (2 * c.n as u64) == 1) {
+        let lg = c.n.trailing_zeros() as usize;
+        match guard(|| NTTTables::create_ntt_tables(lg, &mods(&c.q))) {
+            Ok(Ok(t)) => Some(t),
+            Ok(Err(e)) => return CaseOut::fail(key("ntt-tables-refused"), "NTT tables for primes = 1 mod 2N", e),
+            Err(p) => return CaseOut::fail(key(&format!("ntt-tables-panic:{}", panic_class(&p))), "NTT tables", p),
+        }
+    } else {
+        None
+    };
+    let xs: Vec<BigU> = if c.all {
+        let qv = a.qp.to_u64().expect("all-mode needs a small product");
+        (0..qv).filter(|x| x % c.parts == c.part).map(BigU::from_u64).collect()
+    } else {
+        boundary_xs(&c.q, c.t, seed)
+    };
+    let mut acc = Acc::default();
+    match run_routine(&c.routine, &tool, &a, ntt.as_deref(), &xs, c.all, &mut acc) {
+        Ok(()) => CaseOut::pass(acc.mask.count_ones() > 1, h64(&(c.routine.as_str(), k, acc.mask, ntt.is_some())), acc.steps),
+        Err(b) => CaseOut::fail(key(&b.what), format!("q={:?} t={} N={} | {}", c.q, c.t, c.n, b.exp), b.obs),
+    }
+}
+
+fn plain_moduli() -> Vec<u64> {
+    // 0 = no plain modulus (CKKS); 60-bit prime = 3 mod 4 so that it never collides with the q primes (= 1 mod 4)
+    let mut t60 = (1u64 << 60) - 1;
+    while !(is_prime_u64(t60) && t60 % 4 == 3) {
+        t60 -= 2;
+    }
+    vec![0, 2, 17, 1 << 20, t60]
+}
+
+fn tiny_bases(thorough: bool) -> Vec<Vec<u64>> {
+    let mut v: Vec<Vec<u64>> = vec![
+        vec![3],
+        vec![13],
+        vec![3, 5],
+        vec![5, 3],
+        vec![13, 17],
+        vec![17, 13],
+        vec![3, 5, 7],
+        vec![7, 5, 3],
+        vec![5, 7, 3],
+        vec![5, 13, 17],
+        vec![17, 13, 5],
+        vec![13, 5, 17],
+        vec![5, 7, 11, 13],
+        vec![13, 11, 7, 5],
+        vec![7, 13, 5, 11],
+        vec![5, 13, 17, 29],
+        vec![29, 17, 13, 5],
+        vec![17, 29, 5, 13],
+        vec![3, 5, 7, 11, 13],
+        vec![13, 11, 7, 5, 3],
+        // not acceptable: even product (Q must be invertible modulo m_tilde)
+        vec![4, 3, 5],
+    ];
+    if thorough {
+        v.extend([
+            vec![3, 5, 7, 11, 13, 17],
+            vec![17, 13, 11, 7, 5, 3],
+            vec![5, 13, 17, 29, 37],
+            vec![37, 29, 17, 13, 5],
+            vec![29, 5, 37, 13, 17],
+            vec![41, 29, 17, 13, 5],
+            vec![3, 5, 7, 11, 13, 17, 19][1..6].to_vec(),
+        ]);
+    }
+    v
+}
+
+fn tool_tiny_cases(thorough: bool) -> Vec<ToolCase> {
+    let mut out = vec![];
+    for q in tiny_bases(thorough) {
+        let prod: u64 = q.iter().product();
+        let parts = (prod / 6_000).max(1);
+        for &t in &plain_moduli() {
+            for r in ROUTINES {
+                if *r == "constants" {
+                    out.push(ToolCase { n: 2, q: q.clone(), t, routine: r.to_string(), all: true, part: 0, parts: 1 });
+                    continue;
+                }
+                for part in 0..parts {
+                    out.push(ToolCase { n: 2, q: q.clone(), t, routine: r.to_string(), all: true, part, parts });
+                }
+            }
+        }
+    }
+    // simplest first
+    out.sort_by_key(|c| (c.q.iter().product::<u64>(), c.q.len()));
+    out
+}
+
+fn real_bases(thorough: bool) -> Vec<Vec<u64>> {
+    let p60 = p1(60, 8);
+    let p30 = p1(30, 4);
+    let asc = |v: &[u64]| {
+        let mut w = v.to_vec();
+        w.sort();
+        w
+    };
+    let desc = |v: &[u64]| {
+        let mut w = asc(v);
+        w.reverse();
+        w
+    };
+    let mut v = vec![
+        vec![p60[0]],
+        vec![p30[0]],
+        asc(&p60[..2]),
+        desc(&p60[..2]),
+        asc(&p60[..4]),
+        desc(&p60[..4]),
+        asc(&p60[..6]),
+        desc(&p60[..6]),
+        asc(&p30[..3]),
+        desc(&p30[..3]),
+        vec![p30[0], p60[0], p1(40, 1)[0], p1(59, 1)[0]],
+        vec![p60[1], p1(20, 1)[0], p60[0]],
+        vec![p1(59, 1)[0], 5, p60[2]],
+    ];
+    if thorough {
+        v.extend([
+            asc(&p60[..8]),
+            desc(&p60[..8]),
+            asc(&p60[..3]),
+            desc(&p60[..5]),
+            asc(&p1(59, 6)),
+            desc(&p1(50, 7)),
+            vec![p60[3], p30[1], p60[0], p30[0], p60[5], 13, p1(45, 1)[0]],
+            asc(&p1(40, 5)),
+            vec![p1(13, 1)[0], p1(20, 1)[0], p1(31, 1)[0]],
+        ]);
+    }
+    v
+}
+
+fn tool_real_cases(thorough: bool) -> Vec<ToolCase> {
+    let mut out = vec![];
+    for q in real_bases(thorough) {
+        for &t in &plain_moduli() {
+            for r in ROUTINES {
+                out.push(ToolCase { n: 2, q: q.clone(), t, routine: r.to_string(), all: false, part: 0, parts: 1 });
+            }
+        }
+    }
+    out.sort_by_key(|c| c.q.len());
+    out
+}
+
+// ---- contexts' own instances ---------------------------------------------------------------
+
+#[derive(Serialize, Deserialize, Clone, Debug)]
+pub struct CtxCase {
+    pub spec: ParamSpec,
+    pub routine: String,
+}
+
+fn check_ctx(c: &CtxCase, seed: u64) -> CaseOut {
+    he::env_real(seed, h64(&(serde_json::to_string(&c.spec).unwrap_or_default(), c.routine.as_str())));
+    let ctx = match guard(|| c.spec.context()) {
+        Ok(x) => x,
+        Err(p) => return CaseOut::fail(format!("tool_ctx:context:panic:{}", panic_class(&p)), "context", p),
+    };
+    if !ctx.parameters_set() {
+        return CaseOut::skip("parameter set rejected by the library");
+    }
+    let mut acc = Acc::default();
+    let mut levels = 0u64;
+    let mut cd = Some(ctx.key_context_data().unwrap());
+    let mut first = true;
+    while let Some(d) = cd {
+        let qv: Vec<u64> = d.parms().coeff_modulus().iter().map(|m| m.value()).collect();
+        let t = if c.spec.scheme == Scheme::CKKS { 0 } else { c.spec.t };
+        let k = qv.len();
+        if applicable(&c.routine, k, t) {
+            let tool = d.verif_rns_tool();
+            let key = |tail: &str| format!("tool_ctx:{}:k={k}:{}", c.routine, tail.strip_prefix(&format!("{}:", c.routine)).unwrap_or(tail));
+            let a = match aux_of(tool, c.spec.n, t) {
+                Ok(a) => a,
+                Err(b) => return CaseOut::fail(key(&b.what), b.exp, b.obs),
+            };
+            if a.q != qv {
+                return CaseOut::fail(key("base_q"), format!("{qv:?}"), format!("{:?}", a.q));
+            }
+            let xs = boundary_xs(&qv, t, seed);
+            if let Err(b) = run_routine(&c.routine, tool, &a, Some(d.small_ntt_tables().as_slice()), &xs, false, &mut acc) {
+                return CaseOut::fail(key(&b.what), format!("{} level q={qv:?} | {}", c.spec.label(), b.exp), b.obs);
+            }
+            levels += 1;
+        }
+        // key level -> first data level -> ... -> last
+        cd = if first {
+            first = false;
+            let f = ctx.first_context_data().unwrap();
+            if f.parms_id() == d.parms_id() {
+                d.next_context_data()
+            } else {
+                Some(f)
+            }
+        } else {
+            d.next_context_data()
+        };
+    }
+    if levels == 0 {
+        return CaseOut::skip("routine not applicable at any level");
+    }
+    CaseOut::pass(acc.mask.count_ones() > 1, h64(&(c.routine.as_str(), acc.mask, levels)), acc.steps)
+}
+
+fn ctx_cases(thorough: bool) -> Vec<CtxCase> {
+    let mut specs = vec![
+        ParamSpec::new(Scheme::BFV, 8, he::chain(8, &[60, 60, 60]), 17),
+        ParamSpec::new(Scheme::BFV, 4, he::chain(4, &[30, 30, 30, 30]), 1 << 20),
+        ParamSpec::new(Scheme::BGV, 8, he::chain(8, &[40, 59, 60]), 17),
+        ParamSpec::new(Scheme::BGV, 4, he::chain(4, &[60, 60]), 97),
+        ParamSpec::new(Scheme::CKKS, 8, he::chain(8, &[60, 40, 40, 60]), 0),
+        ParamSpec::new(Scheme::CKKS, 4, he::chain(4, &[30, 30]), 0),
+    ];
+    if thorough {
+        specs.extend([
+            ParamSpec::new(Scheme::BFV, 16, he::chain(16, &[60, 60, 60, 60, 60, 60]), 97),
+            ParamSpec::new(Scheme::BFV, 2, he::chain(2, &[20, 30]), 5),
+            ParamSpec::new(Scheme::BGV, 16, he::chain(16, &[59, 60, 30, 60, 40]), 1 << 20),
+            ParamSpec::new(Scheme::BGV, 8, he::chain(8, &[60, 60, 60, 60]), he::ntt_primes(8, 59, 1)[0]),
+            ParamSpec::new(Scheme::CKKS, 16, he::chain(16, &[60, 60, 60, 60, 60, 60, 60, 60]), 0),
+        ]);
+        let mut s = ParamSpec::new(Scheme::BFV, 8, he::chain(8, &[60, 60, 60]), 17);
+        s.special_enc = true;
+        specs.push(s);
+    }
+    let mut out = vec![];
+    for s in specs {
+        for r in ROUTINES {
+            out.push(CtxCase { spec: s.clone(), routine: r.to_string() });
+        }
+    }
+    out
+}
+
+pub fn sections(cfg: &RunCfg) -> Vec<Box<dyn AnySection>> {
+    let seed = cfg.seed;
+    let th = cfg.thorough();
+    vec![
+        E1::new(
+            "rnsbase",
+            if th {
+                "ordered sub-bases of size 1..4 of {3,5,7,11,13,16,17,2^32,p30,p59,p60,p61} + bases of 5..8 moduli (asc/desc/rotated); all integers < P for P < 1.4e6, boundary set otherwise; arrays 1..5"
+            } else {
+                "ordered sub-bases of size 1..3 of {3,5,7,11,13,16,17,2^32,p30,p59,p60,p61} + bases of 4..8 moduli (asc/desc/rotated); all integers < P for P < 2^18, boundary set otherwise; arrays 1..5"
+            },
+            base_cases(th).into_iter(),
+            move |c| check_base(c, seed),
+        )
+        .deadline(Duration::from_secs(120)),
+        E1::new(
+            "tool_tiny",
+            if th {
+                "N=2, tiny odd q-bases up to 5 moduli (Q <= 1.2e6) x t in {0,2,17,2^20,p60} x 10 routines: ALL integers of [0,Q) x routine boundary dimension"
+            } else {
+                "N=2, 20 tiny odd q-bases of 1..5 moduli (Q <= 32045) x t in {0,2,17,2^20,p60} x 10 routines: ALL integers of [0,Q) x routine boundary dimension"
+            },
+            tool_tiny_cases(th).into_iter(),
+            move |c| check_tool("tool_tiny", c, seed),
+        )
+        .deadline(Duration::from_secs(120)),
+        E1::new(
+            "tool_real",
+            "N=2, q-bases of 1..6 (thorough 8) primes of 13..60 bits, ascending/descending/mixed x t in {0,2,17,2^20,p60} x 10 routines: boundary integer set x routine boundary dimension",
+            tool_real_cases(th).into_iter(),
+            move |c| check_tool("tool_real", c, seed),
+        )
+        .deadline(Duration::from_secs(120)),
+        E1::new(
+            "tool_ctx",
+            "RNS tools owned by BFV/BGV/CKKS contexts (N=4,8; thorough also 2,16), every level incl. the key level, with the level's NTT tables: boundary integer set",
+            ctx_cases(th).into_iter(),
+            move |c| check_ctx(c, seed),
+        )
+        .deadline(Duration::from_secs(120)),
+    ]
 }
